@@ -1171,6 +1171,19 @@ def run_case(case):
     def lanczos_recon(G, what):
         """G = R R^T (or Q diag(w) Q^T) of a Lanczos-based result, all runs regular."""
         LS = runs["slack_rel"] * nrm
+        if head == "SumKronecker" and runs["slack_rel"] > 0:
+            # K1 + K2 is factorised through the INVERSE roots W_i of K2's factors C_i (W_i W_i^T = C_i^{-1}, _sum_formulation):
+            # a Lanczos inverse root carries the tridiagonal jitter j, i.e. W_i W_i^T = (C_i + j I)^{-1}, a relative change of
+            # j / lambda_min(C_i) in C_i^{-1} that enters the product twice (W ... W^T) - not the additive j of a root of A itself
+            jcur = case["settings"].get("tridiagonal_jitter")
+            jcur = 1e-3 if jcur is None else float(jcur)
+            for fac in r["args"][1]["args"]:
+                try:
+                    lm = float(torch.linalg.eigvalsh(refmodel.dense(fac).to(F64)).min())
+                except Exception:
+                    lm = 0.0
+                if lm > 0:
+                    LS = LS + 2.0 * jcur / lm * nrm
         if runs["full"]:
             within("recon", what + " = A (all Krylov spaces complete)", G, A, E + JS + LS)
             return
